@@ -114,8 +114,14 @@ static void live_grid(bool thorough, int workers)
     long nmax = thorough ? 2048 : 300;
     grid_for<int>("int", nmax, workers);
     grid_for<unsigned>("unsigned", nmax, workers);
-    // shape types narrower than int do not compile with the pool's bulk (std::min(int, Shape) in
-    // do_work_chunk) - recorded in DESIGN.md, not checkable at run time
+    // narrow shape types: every n up to max(Shape) for the 8-bit types; the top of the 16-bit ranges (the
+    // last chunk's end, i_begin + chunk_size, does not fit the type there)
+    grid_for<std::uint8_t>("uint8", 255, workers);
+    grid_for<std::int8_t>("int8", 127, workers);
+    grid_for<std::uint16_t>("uint16", thorough ? 600 : 40, workers);
+    grid_for<std::int16_t>("int16", thorough ? 600 : 40, workers);
+    for (long n : {65535l, 65534l, 65533l, 63489l, 63488l, 32769l}) run_one<std::uint16_t>((std::uint16_t) n, workers, -1, -1, "uint16");
+    for (long n : {32767l, 32766l, 31745l, 31744l, 16385l}) run_one<std::int16_t>((std::int16_t) n, workers, -1, -1, "int16");
     grid_for<long long>("long long", thorough ? nmax : 64, workers);
     grid_for<unsigned long>("unsigned long", thorough ? nmax : 64, workers);
     grid_for<std::int64_t>("int64", nmax, workers);
